@@ -307,6 +307,8 @@ void ed_sub_extnd(ed_t r, const ed_t p, const ed_t q) {
 		ed_new(t);
 
 		ed_neg_projc(t, q);
+		/* ed_neg_projc only maintains t when ED_ADD == EXTND. */
+		fp_neg(t->t, q->t);
 		ed_add_extnd(r, p, t);
 	}
 	RLC_CATCH_ANY {
